@@ -153,7 +153,8 @@ def loops_strategy(draw, tier):
             "batch_size": _batch_size(draw, loop, evo), "learn_step": draw(st.sampled_from([1, 2, 3, 4, 8])),
             "learning_delay": draw(st.sampled_from([0, 0, 3])), "memory": draw(st.sampled_from(["uniform", "per", "nstep", "per+nstep"])),
             "evolve": draw(st.booleans()), "mut_probs": draw(st.sampled_from([[1, 0, 0, 0, 0], [0.2, 0.2, 0.2, 0.2, 0.2], [0, 0.5, 0, 0, 0.5], [0, 0, 1, 0, 0]])),
-            "checkpoint": draw(st.sampled_from([None, None, 5])), "target": draw(st.sampled_from([None, None, None, 1e9]))}
+            "checkpoint": draw(st.sampled_from([None, None, 5])), "target": draw(st.sampled_from([None, None, None, 1e9])),
+            "resume": draw(st.sampled_from([0, 0, 1, 1, 2])) if loop in ("on_policy", "ma_on") else 0}
 
 
 PROPERTY = Property(
